@@ -139,34 +139,11 @@ func permJudge(v cadence.Value, w cadence.Value, detV []byte) (class string, det
 
 // siteKind says what kind of site number s of v is.
 func siteKind(v cadence.Value, s int) string {
-	// permute the site and see what changed at the outermost level that differs
-	n := cdcval.Sites(v)
-	if s < 0 || s >= len(n) {
+	k := cdcval.SiteKinds(v)
+	if s < 0 || s >= len(k) {
 		return "all-sites"
 	}
-	w := cdcval.Permute(v, s, cdcval.Perms(n[s])[0])
-	a := cdcval.Dump(v, cdcval.Exact)
-	b := cdcval.Dump(w, cdcval.Exact)
-	i := 0
-	for i < len(a) && i < len(b) && a[i] == b[i] {
-		i++
-	}
-	// look backwards for the nearest opening marker
-	for j := i; j >= 0; j-- {
-		switch {
-		case hasAt(a, j, "Inter["):
-			return "intersection"
-		case hasAt(a, j, "conj["), hasAt(a, j, "disj["):
-			return "entitlements"
-		case hasAt(a, j, "Dict<"):
-			return "dictionary"
-		}
-	}
-	return "site"
-}
-
-func hasAt(s string, i int, p string) bool {
-	return i >= 0 && i+len(p) <= len(s) && s[i:i+len(p)] == p
+	return k[s]
 }
 
 func ccfRobustDoc(doc []byte, pairs int, st *robustStats, report func(dec string, input []byte, o outcome)) {
